@@ -1,6 +1,7 @@
 package main
 
 import (
+	"os/exec"
 	"github.com/spf13/afero"
 	"time"
 	"archive/tar"
@@ -967,6 +968,24 @@ func seqRun(prop, tier string, c Case, w *Worker) (res Result) {
 		}
 	}
 	res.count("tape_records", nrec)
+	if prop == "C05" && res.Verdict == "" && nrec > 0 {
+		// a second, unrelated implementation: GNU tar has to list the whole tape (-i: the end-of-archive markers between appended
+		// records are zero blocks) and find as many members as there are records
+		if tarBin, err := exec.LookPath("tar"); err == nil {
+			cmd := exec.Command(tarBin, "-i", "-tf", rig.Drive)
+			var eb bytes.Buffer
+			cmd.Stderr = &eb
+			outb, terr := cmd.Output()
+			lines := strings.Count(string(outb), "\n") // names are printed escaped, one per line
+			outb = append(outb, eb.Bytes()...)
+			if terr != nil || int64(lines) != nrec {
+				h.ops = append(h.ops, Op{K: "gnu-tar-list"})
+				h.violate("gnu-tar", "GNU tar lists %d members of the tape (err=%v), an independent scan finds %d records: %s", lines, terr, nrec, clip(string(outb), 300))
+			} else {
+				res.count("tapes_listed_by_gnu_tar", 1)
+			}
+		}
+	}
 	res.NonTrivial = succMut >= 3 && nrec >= 4
 	res.Key = sum([]byte(strings.Join(opNames(h.ops), "\n") + cfg.String()))
 	if res.Verdict == "" {
@@ -983,7 +1002,7 @@ func init() {
 		Assumptions: []string{"reference-ambiguous shapes (rename of a directory onto an empty directory or onto itself, RemoveAll through a file) accept either outcome", "op shapes of the open findings listed in KNOWN_FINDINGS.txt are generated only by their dedicated witness cases", "symlinks and operations on the root itself are outside the generator"}}
 	propMeta["C01"] = PropMeta{Level: "exploration", Rule: histRule + "; C01 monitor: tree+content through (a) a fresh instance over a copy of the index and (b) a fresh instance that rebuilds the index from a copy of the tape alone, both equal to the live instance after every call; histories include symlinks and batched Archive/Update/Delete/Move",
 		Assumptions: []string{"'fresh process' is approximated by a fresh object graph in the same process over copies of the files; File.Name() is not part of the compared tree"}}
-	propMeta["C05"] = PropMeta{Level: "exploration", Rule: histRule + "; C05 monitor: byte-prefix test of the drive file around every call, failing calls append nothing, length multiple of 512, independent archive/tar scan restarting after each trailer, member bytes == file content for uncompressed+unencrypted configurations",
+	propMeta["C05"] = PropMeta{Level: "exploration", Rule: histRule + "; C05 monitor: byte-prefix test of the drive file around every call, failing calls append nothing, length multiple of 512, independent archive/tar scan restarting after each trailer, member bytes == file content for uncompressed+unencrypted configurations; at the end of each history GNU tar (`tar -i -tf`) must list the tape without error and find as many members as the scan found records",
 		Assumptions: []string{"explicit overwrite/initialise calls are not part of the histories (they are the stated exception)"}}
 	propMeta["C13"] = PropMeta{Level: "exploration", Rule: histRule + "; C13 monitor: live index rows == entries reachable by listing, parent is a live directory, Readdir(-1) == children exactly once, Readdirnames == Readdir names, Readdir(n) for n in {0,1,2,|c|-1,|c|,|c|+1} within bounds and within the children, every listed name stat-able and openable with matching kind and size",
 		Assumptions: []string{"symlinks are outside this generator"}}
